@@ -287,6 +287,8 @@ def _broadphase_filter(opt_broadphase_filter: int, ngeom_aabb: int, ngeom_rbound
     geom_rbound: wp.array2d[float],
     geom_margin: wp.array2d[float],
     geom_gap: wp.array2d[float],
+    pair_margin: wp.array2d[float],
+    pair_gap: wp.array2d[float],
     # Data in:
     geom_xpos_in: wp.array2d[wp.vec3],
     geom_xmat_in: wp.array2d[wp.mat33],
@@ -294,6 +296,7 @@ def _broadphase_filter(opt_broadphase_filter: int, ngeom_aabb: int, ngeom_rbound
     geom1: int,
     geom2: int,
     worldid: int,
+    pairid: int,
   ) -> bool:
     # 1: plane
     # 2: sphere
@@ -312,6 +315,10 @@ def _broadphase_filter(opt_broadphase_filter: int, ngeom_aabb: int, ngeom_rbound
     gap1, gap2 = geom_gap[gap_id, geom1], geom_gap[gap_id, geom2]  # kernel_analyzer: ignore
     effective_margin1 = margin1 + gap1
     effective_margin2 = margin2 + gap2
+    if pairid >= 0:
+      # explicit pair: the pair's margin and gap replace the geoms'
+      effective_margin1 = pair_margin[worldid % pair_margin.shape[0], pairid] + pair_gap[worldid % pair_gap.shape[0], pairid]
+      effective_margin2 = 0.0
     xpos1, xpos2 = geom_xpos_in[worldid, geom1], geom_xpos_in[worldid, geom2]
     xmat1, xmat2 = geom_xmat_in[worldid, geom1], geom_xmat_in[worldid, geom2]
 
@@ -381,6 +388,11 @@ def _sap_project(opt_broadphase: int):
     geom_rbound: wp.array2d[float],
     geom_margin: wp.array2d[float],
     geom_gap: wp.array2d[float],
+    npair: int,
+    pair_geom1: wp.array[int],
+    pair_geom2: wp.array[int],
+    pair_margin: wp.array2d[float],
+    pair_gap: wp.array2d[float],
     # Data in:
     geom_xpos_in: wp.array2d[wp.vec3],
     nworld_in: int,
@@ -401,7 +413,12 @@ def _sap_project(opt_broadphase: int):
       # geom is a plane
       rbound = MJ_MAXVAL
 
-    radius = rbound + geom_margin[worldid % geom_margin.shape[0], geomid] + geom_gap[worldid % geom_gap.shape[0], geomid]
+    margin = geom_margin[worldid % geom_margin.shape[0], geomid] + geom_gap[worldid % geom_gap.shape[0], geomid]
+    # explicit pairs are detected within the pair's margin + gap instead of the geoms'
+    for i in range(npair):
+      if pair_geom1[i] == geomid or pair_geom2[i] == geomid:
+        margin = wp.max(margin, pair_margin[worldid % pair_margin.shape[0], i] + pair_gap[worldid % pair_gap.shape[0], i])
+    radius = rbound + margin
     center = wp.dot(direction_in, xpos)
 
     sort_index_out[worldid, geomid] = geomid
@@ -441,6 +458,8 @@ def _sap_broadphase(
     geom_rbound: wp.array2d[float],
     geom_margin: wp.array2d[float],
     geom_gap: wp.array2d[float],
+    pair_margin: wp.array2d[float],
+    pair_gap: wp.array2d[float],
     nxn_pairid: wp.array[wp.vec2i],
     # Data in:
     geom_xpos_in: wp.array2d[wp.vec3],
@@ -516,7 +535,18 @@ def _sap_broadphase(
 
       if (
         wp.static(_broadphase_filter(opt_broadphase_filter, ngeom_aabb, ngeom_rbound, ngeom_margin, ngeom_gap))(
-          geom_aabb, geom_rbound, geom_margin, geom_gap, geom_xpos_in, geom_xmat_in, geom1, geom2, worldid
+          geom_aabb,
+          geom_rbound,
+          geom_margin,
+          geom_gap,
+          pair_margin,
+          pair_gap,
+          geom_xpos_in,
+          geom_xmat_in,
+          geom1,
+          geom2,
+          worldid,
+          pairid[0],
         )
         or pairid[1] >= 0
       ):
@@ -613,7 +643,20 @@ def sap_broadphase(
   wp.launch(
     kernel=_sap_project(m.opt.broadphase),
     dim=(d.nworld, m.ngeom),
-    inputs=[m.ngeom, m.geom_rbound, m.geom_margin, m.geom_gap, d.geom_xpos, d.nworld, direction],
+    inputs=[
+      m.ngeom,
+      m.geom_rbound,
+      m.geom_margin,
+      m.geom_gap,
+      m.npair,
+      m.pair_geom1,
+      m.pair_geom2,
+      m.pair_margin,
+      m.pair_gap,
+      d.geom_xpos,
+      d.nworld,
+      direction,
+    ],
     outputs=[
       projection_lower.reshape((-1, m.ngeom)),
       projection_upper,
@@ -667,6 +710,8 @@ def sap_broadphase(
       m.geom_rbound,
       m.geom_margin,
       m.geom_gap,
+      m.pair_margin,
+      m.pair_gap,
       m.nxn_pairid,
       d.geom_xpos,
       d.geom_xmat,
@@ -701,6 +746,8 @@ def _nxn_broadphase(
     geom_rbound: wp.array2d[float],
     geom_margin: wp.array2d[float],
     geom_gap: wp.array2d[float],
+    pair_margin: wp.array2d[float],
+    pair_gap: wp.array2d[float],
     nxn_geom_pair: wp.array[wp.vec2i],
     nxn_pairid: wp.array[wp.vec2i],
     # Data in:
@@ -750,7 +797,18 @@ def _nxn_broadphase(
 
     if (
       wp.static(_broadphase_filter(opt_broadphase_filter, ngeom_aabb, ngeom_rbound, ngeom_margin, ngeom_gap))(
-        geom_aabb, geom_rbound, geom_margin, geom_gap, geom_xpos_in, geom_xmat_in, geom1, geom2, worldid
+        geom_aabb,
+        geom_rbound,
+        geom_margin,
+        geom_gap,
+        pair_margin,
+        pair_gap,
+        geom_xpos_in,
+        geom_xmat_in,
+        geom1,
+        geom2,
+        worldid,
+        nxn_pairid[elementid][0],
       )
       or nxn_pairid[elementid][1] >= 0
     ):
@@ -842,6 +900,8 @@ def nxn_broadphase(
         m.geom_rbound,
         m.geom_margin,
         m.geom_gap,
+        m.pair_margin,
+        m.pair_gap,
         m.nxn_geom_pair_filtered,
         m.nxn_pairid_filtered,
         d.geom_xpos,
